@@ -71,11 +71,12 @@ ALLKEYS = ["parm", "body", "user", "hdr", "partmap", "partvar", "pkg", "loc", "a
 SHAPES = [ALLKEYS, ["partvar", "pkg", "parm"], ["body", "user", "loc", "fn"]]
 
 
-def behaviours(chk, sd, cfgtext, name, simulate=None, seed=None, timeout=1500):
+def behaviours(chk, sd, cfgtext, name, simulate=None, seed=None, timeout=2400):
     """Behaviours of ServiceIsolation_Gen: exhaustive BFS (every path is a distinct state because of the history
     variable) or TLC simulation."""
-    r = vf.tlc(SPEC, SPEC + "_Gen", "gen.cfg", sd, workers=1 if simulate else 4, simulate=simulate, depth=40 if simulate else None,
-               seed=seed, timeout=timeout, files={"gen.cfg": cfgtext})
+    cfgname = "gen_%s.cfg" % re.sub(r"[^A-Za-z0-9]+", "_", name)
+    r = vf.tlc(SPEC, SPEC + "_Gen", cfgname, sd, workers=1 if simulate else 4, simulate=simulate, depth=40 if simulate else None,
+               seed=seed, timeout=timeout, files={cfgname: cfgtext})
     if r.violated or r.error or r.rc != 0:
         raise vf.NoVerdict("behaviour generation failed (%s): %s %s\n%s" % (name, r.violated, r.error, r.stdout[-2000:]))
     seen, out = set(), []
@@ -131,6 +132,24 @@ def mismatch_key(m):
     return "replay/%s/%s" % (m["act"], path)
 
 
+def trace_key(rt, info):
+    key = "trace/" + (rt.violated or "unexplained-event")
+    if info.get("context"):
+        try:
+            key += "/" + json.loads(info["context"][-1]).get("ev", "?")
+        except Exception:
+            pass
+    return key
+
+
+def concurrent(ov, sd, root, runs, n, race=True):
+    tr = os.path.join(sd, "trace.ndjson")
+    env = {"VERIF_OUT": tr, "VERIF_SVCROOT": root, "VERIF_EGOPATH": vf.REPO, "VERIF_RUNS": str(runs), "VERIF_N": str(n),
+           "VERIF_SEED": str(vf.SEED)}
+    p = vf.go_test(ov, "./" + PKG + "/", "^TestVerifC42Concurrent$", env=env, race=race, timeout=3000)
+    return p, tr
+
+
 def run():
     thorough = vf.TIER == "thorough"
     chk = vf.Check(PROP)
@@ -138,17 +157,25 @@ def run():
         "one endpoint per behaviour; requests reach ServiceHandler through the real router.ServeHTTP in-process (httptest recorder), users are bearer tokens of the real token package",
         "ego.compiler.import = true (the default of a server profile): compiling a service auto-imports the packages into the compiling request's table",
         "a replayed step is the code between two verifGate points; interleavings inside a step (bytecode level) are only sampled (yield hook, GOMAXPROCS sweep, -race)",
-        "a request the specification says is parked on the first-use lock of its route is watched for 150 ms only (a lock that does not block can be missed, never falsely reported)"]
+        "a request the specification says is parked on the first-use lock of its route is watched for 150 ms only (a lock that does not block can be missed, never falsely reported)",
+        "trace validation does not model the first-use lock of the route (its critical sections are not logged); the gated replay does"]
     with vf.scratch() as sd:
         root = os.path.join(sd, "svcroot")
         write_services(root, SHAPES)
         ov = vf.make_overlay(sd, HARNESS)
         W = 4
-        with ThreadPoolExecutor(max_workers=8) as ex:
+        sims = [(["r3"], SHAPES[0], 400 if thorough else 40, 2), ([], SHAPES[1], 250 if thorough else 25, 1),
+                (["r2"], SHAPES[2], 250 if thorough else 25, 1)]
+        with ThreadPoolExecutor(max_workers=12) as ex:
             f_mc = ex.submit(vf.tlc, SPEC, SPEC, SPEC + ("_MC.cfg" if thorough else "_MCq.cfg"), sd, workers=W, timeout=4000)
             f_mc2 = ex.submit(vf.tlc, SPEC, SPEC, SPEC + "_MC2.cfg", sd, workers=W, timeout=4000) if thorough else None
             f_neg = {d: ex.submit(vf.tlc, SPEC, SPEC, SPEC + "_MC_%s.cfg" % d, sd, workers=2, timeout=2000)
                      for d in ("parts", "unsaved", "unlock")}
+            f_gen = [ex.submit(behaviours, chk, sd, gen_cfg(["r1", "r2", "r3"], bad, [shape], ev), "gen simulate %d" % i,
+                               "num=%d" % num, vf.SEED * 10 + i) for i, (bad, shape, num, ev) in enumerate(sims)]
+            f_ex = ex.submit(behaviours, chk, sd, gen_cfg(["r1", "r2"], ["r2"], [SHAPES[1]], 1), "gen exhaustive 2 requests") if thorough else None
+            # T driver starts right away (it needs nothing from TLC)
+            f_conc = ex.submit(concurrent, ov, sd, root, 48 if thorough else 8, 48 if thorough else 16)
             # 1. the repaired design satisfies C42 (exhaustive at the stated bound)
             r = vf.tlc_ok(f_mc.result(), "ServiceIsolation MC")
             chk.add_tlc(r, "MC repaired design")
@@ -160,27 +187,91 @@ def run():
                 if rn.violated != want:
                     raise vf.NoVerdict("negative control: defect %s did not violate %s (%s %s)" % (d, want, rn.violated, rn.error))
                 chk.add_tlc(rn, "negative control (%s as is) violates %s" % (d, want), count_states=False)
-        # 3. R: interleavings chosen by TLC forced on the real handler
-        behs = []
-        if thorough:
-            behs += behaviours(chk, sd, gen_cfg(["r1", "r2"], ["r2"], [SHAPES[1]], 1), "gen exhaustive 2 requests")
-            chk.cov["exhaustive_2req"] = len(behs)
-        for i, (bad, shape, num) in enumerate([(["r3"], SHAPES[0], 500 if thorough else 60), ([], SHAPES[1], 300 if thorough else 30),
-                                               (["r2"], SHAPES[2], 300 if thorough else 30)]):
-            behs += behaviours(chk, sd, gen_cfg(["r1", "r2", "r3"], bad, [shape], 1 if i else 2), "gen simulate %d" % i,
-                               simulate="num=%d" % num, seed=vf.SEED * 10 + i)
-        res = replay(chk, sd, ov, behs, root, "main")
-        if res is not None:
-            for m in res.get("mismatches") or []:
-                chk.violation(mismatch_key(m), "real code differs from the specification at %s after %s: spec=%s real=%s"
-                              % (m["path"], m["act"], m["want"], m["got"]), m)
-            chk.cov["traces_validated_against_impl"] += res["behaviours"]
-            chk.cov["evaluations"] += res["steps"]
-            chk.cov["distinct_nontrivial"] += res["transitions"]
-            chk.cov["replay_act_counts"] = res["act_counts"]
-            chk.cov["replay_extra"] = res.get("extra")
-            chk.sample({"kind": "replayed behaviour (calls only)", "svc": behs[0]["svc"], "calls": [s["call"] for s in behs[0]["steps"]]})
-        chk.cov["rule"] = ("behaviours = paths of ServiceIsolation_Gen (gate-to-gate steps of 2-3 concurrent requests + flushes); "
-                           "non-trivial+distinct = distinct (spec state before, step) pairs executed on the real handler")
+            # 3. R: interleavings chosen by TLC forced on the real handler
+            behs = []
+            if f_ex:
+                behs += f_ex.result()
+                chk.cov["exhaustive_2req"] = len(behs)
+            for f in f_gen:
+                behs += f.result()
+            res = replay(chk, sd, ov, behs, root, "main")
+            if res is not None:
+                for m in res.get("mismatches") or []:
+                    chk.violation(mismatch_key(m), "real code differs from the specification at %s after %s: spec=%s real=%s"
+                                  % (m["path"], m["act"], m["want"], m["got"]), m)
+                chk.cov["traces_validated_against_impl"] += res["behaviours"]
+                chk.cov["evaluations"] += res["steps"]
+                chk.cov["distinct_nontrivial"] += res["transitions"]
+                chk.cov["replay_act_counts"] = res["act_counts"]
+                chk.cov["replay_extra"] = res.get("extra")
+                chk.sample({"kind": "replayed behaviour (calls only)", "svc": behs[0]["svc"], "calls": [s["call"] for s in behs[0]["steps"]]})
+                # binding self-test (R): one perturbed expected value must be reported as a mismatch
+                rng = random.Random(vf.SEED)
+                cand = [b for b in behs if any(s["st"]["resp"] for s in b["steps"])]
+                if not cand:
+                    raise vf.NoVerdict("self-test: no generated behaviour delivers a response")
+                b = json.loads(json.dumps(rng.choice(cand[:50])))
+                si = max(i for i, s in enumerate(b["steps"]) if s["st"]["resp"])
+                rr = sorted(b["steps"][si]["st"]["resp"])[0]
+                b["steps"][si]["st"]["resp"][rr]["status"] = 299
+                rs = replay(vf.Check(PROP), sd, ov, [b], root, "selftest")
+                if rs is None or not any(".resp" in m["path"] for m in rs.get("mismatches") or []):
+                    raise vf.NoVerdict("binding self-test (R) failed: a perturbed expected response was not reported")
+                chk.cov["binding_selftest_R"] = "perturbed expected response status reported as mismatch"
+            # 4. T: concurrent batches of the real handler validated against the spec
+            p, tr = f_conc.result()
+        out = p.stdout + p.stderr
+        fatal = re.search(r"fatal error: [^\n]*", out)
+        if "DATA RACE" in out:
+            chk.violation("race/services", "race detector report in concurrent service requests", out[-8000:])
+        elif fatal:
+            chk.violation("crash/concurrent", "the server process died during a concurrent batch: " + fatal.group(0), out[-6000:])
+        elif p.returncode != 0 or not os.path.exists(tr):
+            raise vf.NoVerdict("concurrent driver failed\n" + p.stdout[-3000:] + p.stderr[-2000:])
+        else:
+            lines = open(tr).read().splitlines()
+            nev = len(lines)
+            nruns = sum(1 for l in lines if '"ev":"Reset"' in l)
+            rt = vf.trace_validate(chk, SPEC, SPEC + "_Trace", SPEC + "_Trace.cfg", sd, tr, name="trace validation (concurrent batches)", timeout=2400)
+            if not rt.accepted:
+                info = vf.trace_reject_info(rt, tr)
+                chk.violation(trace_key(rt, info), "a recorded concurrent batch is not a behaviour of the specification: %s" % json.dumps(info)[:1800],
+                              {"info": info, "trace": lines[: (rt.highwater or (0, 0))[0] + 5][-300:]})
+            else:
+                chk.cov["traces_validated_against_impl"] += nruns
+                chk.cov["evaluations"] += nev
+                chk.cov["trace_events"] = nev
+                evs = [json.loads(l) for l in lines]
+                chk.cov["trace_event_counts"] = {k: sum(1 for e in evs if e["ev"] == k) for k in sorted(set(e["ev"] for e in evs))}
+                # vacuity guards: the batches really overlapped, hit the cache, missed it, and were flushed
+                need = {"ReadS": 1, "Add": 2, "Flush": 1, "RunErr": 1}
+                for k, v in need.items():
+                    if chk.cov["trace_event_counts"].get(k, 0) < v:
+                        raise vf.NoVerdict("concurrent driver too weak: %d %s events" % (chk.cov["trace_event_counts"].get(k, 0), k))
+                # 5. binding self-test (T): a corrupted response field and a dropped event must be rejected
+                rng = random.Random(vf.SEED)
+                resps = [i for i, e in enumerate(evs) if e["ev"] == "Resp" and e["status"] == 200]
+                saves = [i for i, e in enumerate(evs) if e["ev"] == "Finish" and e["saved"]]
+                if not resps or not saves:
+                    raise vf.NoVerdict("self-test: the recorded batches contain no successful response / no saved symbols")
+                i = rng.choice(resps)
+                e = json.loads(lines[i]); k = sorted(e["body"])[0]; e["body"][k] = "r999_" + k
+                c1 = lines[:i] + [json.dumps(e)] + lines[i + 1:]
+                j = rng.choice(saves)
+                c2 = lines[:j] + lines[j + 1:]
+                with ThreadPoolExecutor(max_workers=2) as ex:
+                    def val(cl, nm):
+                        pth = os.path.join(sd, "corrupt-%s.ndjson" % nm)
+                        open(pth, "w").write("\n".join(cl) + "\n")
+                        return vf.trace_validate(chk, SPEC, SPEC + "_Trace", SPEC + "_Trace.cfg", sd, pth, name=None, timeout=2400)
+                    fs = [(nm, ex.submit(val, cl, nm)) for nm, cl in (("response", c1), ("dropped", c2))]
+                    for nm, f in fs:
+                        if f.result().accepted:
+                            raise vf.NoVerdict("binding self-test (T) failed: trace with corrupted %s was accepted" % nm)
+                chk.cov["binding_selftest_T"] = "foreign value in a response and dropped Finish(saved) event both rejected"
+                chk.sample({"kind": "recorded concurrent events", "events": evs[:10]})
+        chk.cov["rule"] = ("behaviours = paths of ServiceIsolation_Gen (gate-to-gate steps of 2-3 concurrent requests + flushes) replayed on the real handler; "
+                           "non-trivial+distinct = distinct (spec state before, step) pairs executed; "
+                           "trace events = critical sections, gates and responses of concurrent real batches accepted by ServiceIsolation_Trace")
         chk.cov["exhaustive"] = False
     return chk.finish()
